@@ -78,8 +78,10 @@ func c08sites(fn *ssa.Function) []panicSite {
 				}
 			}
 		case *ssa.MakeSlice:
-			if _, isK := core.ConstInt(x.Len); !isK {
-				out = append(out, panicSite{fn, in, "make", "make with variable length"})
+			_, lenK := core.ConstInt(x.Len)
+			_, capK := core.ConstInt(x.Cap)
+			if !lenK || !capK {
+				out = append(out, panicSite{fn, in, "make", "make with variable length or capacity"})
 			}
 		case *ssa.SliceToArrayPointer:
 			out = append(out, panicSite{fn, in, "slice", "slice to array pointer"})
@@ -114,24 +116,24 @@ type auditEntry struct {
 
 var c08Audit = map[string]auditEntry{
 	// --- p2pke: failures of local key material / constant configuration, not of input
-	"(*p2p/p/p2pke.Channel).Deliver$1|panic":        {1, "panic(i) when a session in slot 0/1 becomes ready: slots 0 and 1 only ever hold sessions that were ready when promoted (onReadySession/expireSessions are the only writers) and readiness is monotone (C06 INV-MONOTONE)"},
-	"(*p2p/p/p2pke.Session).writeHandshake|panic":   {4, "msgCache[k] is filled in the transition that enters the state which emits it (C06 INV-PURE-GETTER checks this on the extracted state machine)"},
-	"(*p2p/p/p2pke.privateKey).Public|panic":        {1, "PublicFromPrivate of the LOCAL private key, validated when the swarm/channel was constructed"},
-	"p2p/p/p2pke.NewChannel|panic":                  {2, "nil Send/AcceptKey are constructor misuse; p2pkeswarm always sets both"},
-	"p2p/p/p2pke.NewSession|panic":                  {1, "noise.NewHandshakeState with the constant NN/25519/ChaChaPoly/BLAKE2b configuration cannot fail"},
-	"p2p/p/p2pke.PrettyPrint|panic":                 {1, "json.MarshalIndent of the parsed InitHello (plain byte-slice fields) cannot fail; debugging helper"},
-	"p2p/p/p2pke.createPreSig|panic":                {1, "blake2b.NewXOF(64, nil) with a constant size cannot fail"},
-	"p2p/p/p2pke.makeChannelAuthClaim|panic":        {1, "signing with the local private key"},
-	"p2p/p/p2pke.makeTAI64NAuthClaim|panic":         {1, "signing with the local private key"},
-	"p2p/p/p2pke.marshal|panic":                     {1, "proto.Marshal of locally built messages whose fields are byte slices cannot fail"},
-	"p2p/p/p2pke.readInitHello|panic":               {1, "hs.WriteMessage of the fixed-size RespHello fails only on handshake misuse (wrong turn), excluded by the hsIndex state machine"},
-	"p2p/p/p2pke.readRespHello|panic":               {1, "unreachable: err was checked and returned just above (dead check of a stale variable)"},
-	"p2p/p/p2pke.writeInitHello|panic":              {1, "hs.WriteMessage of the locally built InitHello on a fresh initiator handshake"},
+	"(*p2p/p/p2pke.Channel).Deliver$1|panic":      {1, "panic(i) when a session in slot 0/1 becomes ready: slots 0 and 1 only ever hold sessions that were ready when promoted (onReadySession/expireSessions are the only writers) and readiness is monotone (C06 INV-MONOTONE)"},
+	"(*p2p/p/p2pke.Session).writeHandshake|panic": {4, "msgCache[k] is filled in the transition that enters the state which emits it (C06 INV-PURE-GETTER checks this on the extracted state machine)"},
+	"(*p2p/p/p2pke.privateKey).Public|panic":      {1, "PublicFromPrivate of the LOCAL private key, validated when the swarm/channel was constructed"},
+	"p2p/p/p2pke.NewChannel|panic":                {2, "nil Send/AcceptKey are constructor misuse; p2pkeswarm always sets both"},
+	"p2p/p/p2pke.NewSession|panic":                {1, "noise.NewHandshakeState with the constant NN/25519/ChaChaPoly/BLAKE2b configuration cannot fail"},
+	"p2p/p/p2pke.PrettyPrint|panic":               {1, "json.MarshalIndent of the parsed InitHello (plain byte-slice fields) cannot fail; debugging helper"},
+	"p2p/p/p2pke.createPreSig|panic":              {1, "blake2b.NewXOF(64, nil) with a constant size cannot fail"},
+	"p2p/p/p2pke.makeChannelAuthClaim|panic":      {1, "signing with the local private key"},
+	"p2p/p/p2pke.makeTAI64NAuthClaim|panic":       {1, "signing with the local private key"},
+	"p2p/p/p2pke.marshal|panic":                   {1, "proto.Marshal of locally built messages whose fields are byte slices cannot fail"},
+	"p2p/p/p2pke.readInitHello|panic":             {1, "hs.WriteMessage of the fixed-size RespHello fails only on handshake misuse (wrong turn), excluded by the hsIndex state machine"},
+	"p2p/p/p2pke.readRespHello|panic":             {1, "unreachable: err was checked and returned just above (dead check of a stale variable)"},
+	"p2p/p/p2pke.writeInitHello|panic":            {1, "hs.WriteMessage of the locally built InitHello on a fresh initiator handshake"},
 	// --- mbapp bitmap: constructor invariant
-	"(p2p/p/mbapp.bitMap).get|panic":                {1, "collector.addPart rejects partIndex >= partCount before get/set and the bitmap was made for partCount; allSet loops i < len()"},
-	"(p2p/p/mbapp.bitMap).set|panic":                {1, "same guard as get"},
-	"(p2p/p/mbapp.bitMap).get|index":                {1, "buf has ceil(n/8) bytes (newBitMap) and 0 <= i < n at every caller (partIndex from a uint16, checked against partCount; allSet's loop index)"},
-	"(p2p/p/mbapp.bitMap).set|index":                {4, "same as get"},
+	"(p2p/p/mbapp.bitMap).get|panic": {1, "collector.addPart rejects partIndex >= partCount before get/set and the bitmap was made for partCount; allSet loops i < len()"},
+	"(p2p/p/mbapp.bitMap).set|panic": {1, "same guard as get"},
+	"(p2p/p/mbapp.bitMap).get|index": {1, "buf has ceil(n/8) bytes (newBitMap) and 0 <= i < n at every caller (partIndex from a uint16, checked against partCount; allSet's loop index)"},
+	"(p2p/p/mbapp.bitMap).set|index": {4, "same as get"},
 	// --- local handler contract, not network input
 	"(*p2p/p/mbapp.Swarm[A, Pub]).handleAskRequest|slice": {1, "bufLen is the LOCAL ask handler's return value, which by the AskHandler contract is at most len(resp); extractErrorCode maps negatives to 0"},
 	"(*p2p/s/quicswarm.Swarm[T]).handleAsk|slice":         {1, "respBuf[:n]: n is the local ask handler's return value (<= len(resp) by contract), negatives return earlier; reqData[:n] is proved from readFrame's summary"},
@@ -143,28 +145,28 @@ var c08Audit = map[string]auditEntry{
 	"p2p/p/mbapp.lastEvenEpoch|div":                       {1, "period = units << 31 with units = time.Millisecond at the module's only call site (handleMessage)"},
 	"p2p/p/mbapp.lastOddEpoch|div":                        {2, "same period"},
 	// --- fragswarm header parse: three-term arithmetic
-	"p2p/s/fragswarm.parseMessage$1|slice":                {1, "x[n:]: n accumulates Uvarint consumption, each n2 <= len(x[n:]) = len(x) - n, so n + n2 <= len(x) (needs a three-variable invariant the difference-bound prover cannot express)"},
-	"p2p/s/fragswarm.parseMessage|slice":                  {1, "x[n:] after the same loop: n <= len(x)"},
+	"p2p/s/fragswarm.parseMessage$1|slice": {1, "x[n:]: n accumulates Uvarint consumption, each n2 <= len(x[n:]) = len(x) - n, so n + n2 <= len(x) (needs a three-variable invariant the difference-bound prover cannot express)"},
+	"p2p/s/fragswarm.parseMessage|slice":   {1, "x[n:] after the same loop: n <= len(x)"},
 	// --- keys of addresses produced by the inner swarm itself
-	"p2p/s/fragswarm.keyForAddr|panic":                    {1, "MarshalText of an address the inner swarm itself produced; module address types never return an error"},
-	"(*p2p/s/p2pkeswarm.Swarm[T]).keyForAddr|panic":       {1, "same"},
+	"p2p/s/fragswarm.keyForAddr|panic":              {1, "MarshalText of an address the inner swarm itself produced; module address types never return an error"},
+	"(*p2p/s/p2pkeswarm.Swarm[T]).keyForAddr|panic": {1, "same"},
 	// --- kademlia internal invariants
-	"(*p2p/p/kademlia.bucket[V]).update|panic":            {1, "the update closures of Cache.Put and DHTNode.AddPeer set (or keep) Key == key"},
-	"(*p2p/p/kademlia.bucket[V]).evict|panic":             {1, "Cache.evict only picks a bucket with len() > minPerBucket >= 0"},
+	"(*p2p/p/kademlia.bucket[V]).update|panic": {1, "the update closures of Cache.Put and DHTNode.AddPeer set (or keep) Key == key"},
+	"(*p2p/p/kademlia.bucket[V]).evict|panic":  {1, "Cache.evict only picks a bucket with len() > minPerBucket >= 0"},
 	// --- queue: equal capacities
-	"(*p2p/s/swarmutil.Queue[A]).Deliver|panic":           {1, "'queue is full but freelist gave us a message': queue and freelist have the same capacity and every message is in exactly one of them or held by one receiver, so a message taken from the freelist always fits the queue"},
+	"(*p2p/s/swarmutil.Queue[A]).Deliver|panic": {1, "'queue is full but freelist gave us a message': queue and freelist have the same capacity and every message is in exactly one of them or held by one receiver, so a message taken from the freelist always fits the queue"},
 	// --- oids: callers iterate i < Len()
-	"(p2p/f/x509/oids.OID).At|slice":                      {1, "every module caller iterates i < oid.Len() = len(s)/8 (ASN1, String)"},
+	"(p2p/f/x509/oids.OID).At|slice": {1, "every module caller iterates i < oid.Len() = len(s)/8 (ASN1, String)"},
 	// --- TLS / net library facts
-	"(*p2p/s/quicswarm.Swarm[T]).LookupPublicKey$1|index": {1, "sessions enter the cache only after remoteAddrFromSession verified len(PeerCertificates) >= 1 (both putSession call sites)"},
-	"p2p/s/swarmutil.GenerateSelfSigned|panic":            {2, "certificate generation with the local signer"},
-	"p2p/s/udpswarm.FromNetAddr|panic":                    {1, "the IP of a net.UDPAddr returned by ReadFromUDP / LocalAddr has 4 or 16 bytes"},
-	"(*p2p/s/udpswarm.Swarm).Receive|assert":              {1, "LocalAddr of a *net.UDPConn is a *net.UDPAddr"},
-	"(*p2p/s/quicswarm.Swarm[T]).makeLocalAddr|assert":    {1, "quic connections run over the swarm's own packetConn, whose addresses are p2pconn.Addr[T]"},
+	"(*p2p/s/quicswarm.Swarm[T]).LookupPublicKey$1|index":      {1, "sessions enter the cache only after remoteAddrFromSession verified len(PeerCertificates) >= 1 (both putSession call sites)"},
+	"p2p/s/swarmutil.GenerateSelfSigned|panic":                 {2, "certificate generation with the local signer"},
+	"p2p/s/udpswarm.FromNetAddr|panic":                         {1, "the IP of a net.UDPAddr returned by ReadFromUDP / LocalAddr has 4 or 16 bytes"},
+	"(*p2p/s/udpswarm.Swarm).Receive|assert":                   {1, "LocalAddr of a *net.UDPConn is a *net.UDPAddr"},
+	"(*p2p/s/quicswarm.Swarm[T]).makeLocalAddr|assert":         {1, "quic connections run over the swarm's own packetConn, whose addresses are p2pconn.Addr[T]"},
 	"(*p2p/s/quicswarm.Swarm[T]).remoteAddrFromSession|assert": {1, "same"},
-	"(*p2p/p/p2pmux.muxCore[A, C, Pub]).getSwarm|assert":  {1, "mc.swarms only ever stores *muxedSwarm (open is the only writer)"},
-	"p2p/f/x509.NewCodec$2|assert":                        {1, "codec closures are applied to verifiers created by the same codec (StoreVerifier path, local keys)"},
-	"p2p/f/x509.NewCodec$4|assert":                        {1, "same, signers"},
+	"(*p2p/p/p2pmux.muxCore[A, C, Pub]).getSwarm|assert":       {1, "mc.swarms only ever stores *muxedSwarm (open is the only writer)"},
+	"p2p/f/x509.NewCodec$2|assert":                             {1, "codec closures are applied to verifiers created by the same codec (StoreVerifier path, local keys)"},
+	"p2p/f/x509.NewCodec$4|assert":                             {1, "same, signers"},
 }
 
 func c08(r *core.Report) {
@@ -332,12 +334,21 @@ func c08(r *core.Report) {
 				}
 			case "make":
 				ms := s.in.(*ssa.MakeSlice)
-				if bd.ProveAtLeast(s.in, ms.Len, 0) {
-					r.OK("C08-ARITH", c, pos, "the length is non-negative")
+				// makeslice panics unless 0 <= len <= cap
+				capOK := ms.Cap == ms.Len
+				if !capOK {
+					if k, isK := core.ConstInt(ms.Len); isK {
+						capOK = bd.ProveAtLeast(s.in, ms.Cap, k)
+					} else {
+						capOK = bd.ProveDiffAtMost(s.in, ms.Len, ms.Cap, 0)
+					}
+				}
+				if capOK && bd.ProveAtLeast(s.in, ms.Len, 0) {
+					r.OK("C08-ARITH", c, pos, "0 <= length <= capacity")
 				} else if reason, aud := audited(f, s.kind); aud {
 					r.OK("C08-ARITH", c, pos, "audited: "+reason)
 				} else {
-					r.Violation("C08-ARITH", c, pos, "make with a length not known to be non-negative")
+					r.Violation("C08-ARITH", c, pos, "make with a length or capacity not known to satisfy 0 <= len <= cap: a negative value from a packet panics in makeslice")
 				}
 			}
 		}
